@@ -26,8 +26,9 @@ def fin(v):
 
 
 class Enc:
-    def __init__(self, tr, timeout_ms=4000):
+    def __init__(self, tr, timeout_ms=4000, compl_bounds=None):
         self.tr = tr
+        self.compl_bounds = compl_bounds or {}     # var -> (lb, ub) to read a complementarity condition with (default: the delivered bounds)
         self.s = z3.Solver()
         self.s.set('timeout', timeout_ms)
         self.raw, self.v = [], []
@@ -129,14 +130,23 @@ class Enc:
             return z3.And(out) if out else z3.BoolVal(True)
         if t.startswith('Complementarity'):
             e = self.body(d['expr']); x = v[d['var']]; j = d['var']
-            lo, hi = self.tr.lb[j], self.tr.ub[j]
+            lo, hi = self.compl_bounds.get(j, (self.tr.lb[j], self.tr.ub[j]))
             alts = [e == 0]
             if fin(lo):
                 alts.append(z3.And(x == q(lo), e >= 0))
             if fin(hi):
                 alts.append(z3.And(x == q(hi), e <= 0))
             return z3.Or(alts)
-        if 'res' not in d:
+        if t in ('QuadraticConeConstraint', 'RotatedQuadraticConeConstraint'):
+            # p0*x0 >= sqrt(sum (pi*xi)^2), resp. 2*p0*x0*p1*x1 >= sum_{i>=2} (pi*xi)^2 with p0*x0, p1*x1 >= 0 (the solvers' reading)
+            sc = [q(pp) * v[i] for pp, i in zip(d['params'], d['args'])]
+            nh = 1 if t[0] == 'Q' else 2
+            lhs = sc[0] * sc[0] if nh == 1 else 2 * sc[0] * sc[1]
+            rhs = z3.Sum([x * x for x in sc[nh:]]) if len(sc) > nh else z3.RealVal(0)
+            if any(flat_eval.fr(pp).denominator > 2 ** 20 for pp in d['params']):      # factors are rounded square roots: 1e-9 relative
+                lhs = lhs * z3.Q(10 ** 9 + 1, 10 ** 9) + z3.Q(1, 10 ** 12)
+            return z3.And([x >= 0 for x in sc[:nh]] + [lhs >= rhs])
+        if 'res' not in d or d['res'] < 0:
             raise Unsupported(t)
         r = v[d['res']]
         if t in ('LinearFunctionalConstraint', 'QuadraticFunctionalConstraint'):
